@@ -45,6 +45,11 @@ def _(values: float) -> set[int]:
     return _drop_nulls_scalar(values)
 
 
+@find_nulls.register
+def _(values: numpy.number) -> set[int]:
+    return _drop_nulls_scalar(values)
+
+
 def _drop_nulls_scalar(values: Union[int, float]) -> set[int]:
     if isinstance(values, FactorValues):
         values = values.__wrapped__
@@ -118,6 +123,14 @@ def drop_rows(values: Any, indices: Sequence[int]) -> Any:
     raise ValueError(
         f"No implementation of `drop_rows()` for values of type `{repr(type(values))}`."
     )
+
+
+@drop_rows.register(int)
+@drop_rows.register(float)
+@drop_rows.register(numpy.number)
+def _(values: Any, indices: Sequence[int]) -> Any:
+    # A constant has the same value on every row.
+    return values
 
 
 @drop_rows.register
